@@ -441,6 +441,9 @@ func runC03(c *Ctx) {
 	checkSchemaPresenceIsNilness(c, "C03-R5")
 	// an import that runs while the manager is locked seals the key under the wiped (all-zero) crypto key: it is handed
 	// back for as long as the object lives and is lost at the next lock (C05-R1's gating rule, for the import paths)
+	// "indices are issued without repetition": derive, commit and the commit callback that advances the index happen
+	// under one wallet mutex (C09-R1's rule)
+	c.Borrow(runC09, "C09-R1", "C03-R4", func(k string) bool { return strings.HasPrefix(k, "tx-site-locked") })
 	c.Borrow(func(c2 *Ctx) { checkLockGating(c2, "C03-R3") }, "C03-R3", "C03-R3", func(k string) bool {
 		return strings.HasPrefix(k, "no-private-use-while-locked:") && strings.Contains(k, "Import")
 	})
